@@ -189,8 +189,10 @@ def offices(ctx):
 
 
 def office_classes(ctx):
-    """distinct default-aggregate lists (office classes) + the unknown office"""
+    """distinct default-aggregate lists (office classes) + the unknown office; thorough tier: every office of the table"""
     d = offices(ctx)
+    if ctx.tier == "thorough":
+        return [(o, list(lst)) for o, lst in d.items()] + [("<unknown office>", [])]
     classes = {}
     for o, lst in d.items():
         classes.setdefault(tuple(lst), o)
